@@ -8,7 +8,9 @@ def run(chk, replay=None):
     n = 6 if chk.tier == "quick" else 30
     variants = {"reset_step": dict(drive="reset_step"), "run": dict(drive="run"), "override": dict(drive="override"),
                 "jit": dict(drive="reset_step", jit=True),
-                "carry": dict(drive="reset_step", episodes=2, carry=True)}   # 2nd episode restarted from the 1st one's final graph state
+                "carry": dict(drive="reset_step", episodes=2, carry=True),   # 2nd episode restarted from the 1st one's final graph state
+                "verbose_warmup": dict(drive="reset_step", warmup_verbose=True),       # optional arguments of warmup() do not execute step functions
+                "verbose_warmup_jit": dict(drive="reset_step", warmup_verbose=True, jit=True)}
     graphs = al.async_suite(chk, n, variants)
     for G in graphs:
         if G["skipped"]: chk.feat("skipped:" + G["skipped"].split(":")[0]); continue
@@ -20,6 +22,10 @@ def run(chk, replay=None):
                 chk.case(key, ["impl-error"], None)
                 chk.violation(f"async-run-fails:{r['error'].split(':')[0]}", f"threaded run failed ({vn}): {r['error'][:300]}", dict(cfg=cfg, variant=vn))
                 continue
+            if r.get("calls_warmup"):
+                cw_ = r["calls_warmup"]
+                chk.violation("step-function-executed-outside-episode", f"graph.warmup({'verbose=True' if variants[vn].get('warmup_verbose') else ''}) executed step functions "
+                              f"{len(cw_)} times before the episode (first: {cw_[0][0]}[{cw_[0][1]}]): the ticks recorded afterwards are executed once more", dict(cfg=cfg, variant=vn))
             ep = al.canon_neg(r["episodes"][0])
             chk.case(key, al.features(cfg) + [vn], dict(cfg=cfg, variant=vn) if vn == "override" else None)
             for ei, epx in enumerate(r["episodes"]):
